@@ -75,7 +75,7 @@ ROUTES = ["triples", "so", "so_unique", "so_list", "value", "slice", "resource",
           "ds_union", "ds_default", "ds_named", "agg", "in_agg", "in_ds", "sparql_const", "sparql_values",
           "sparql_tree", "sparql_init", "sparql_ds_union", "sparql_ds_default", "sparql_ds_graph", "sparql_ds_init",
           "sparql_agg", "sparql_agg_values", "sparql_agg_init", "sparql_n3", "api", "first_false",
-          "sparql_same", "sparql_join_before", "sparql_join_after", "sparql_same_init", "sparql_same_values"]
+          "sparql_same", "sparql_join_before", "sparql_join_after", "sparql_same_init", "sparql_same_values", "view"]
 FULL, DEFAULT, NAMED, AGG = 0, 1, 2, 3
 ROUTE_GRAPH = {"so_unique": FULL, "so_list": FULL, "value": FULL, "slice": FULL, "resource": FULL, "eval_direct": FULL,
                "interleave": FULL, "interleave_b": DEFAULT,
@@ -85,7 +85,7 @@ ROUTE_GRAPH = {"so_unique": FULL, "so_list": FULL, "value": FULL, "slice": FULL,
                "sparql_ds_union": FULL, "sparql_ds_default": DEFAULT, "sparql_ds_graph": NAMED, "sparql_ds_init": FULL,
                "sparql_agg": AGG, "sparql_agg_values": AGG, "sparql_agg_init": AGG, "sparql_n3": FULL, "api": FULL, "first_false": FULL,
                "sparql_same": FULL, "sparql_join_before": FULL, "sparql_join_after": FULL, "sparql_same_init": FULL,
-               "sparql_same_values": FULL}
+               "sparql_same_values": FULL, "view": FULL}
 BGP_ROUTES = ("sparql_same", "sparql_join_before", "sparql_join_after", "sparql_same_init", "sparql_same_values")
 GNAME2 = URIRef(E + "g2")
 # round h: the KIND of graph object every `env["g"]` route runs on (case["kind"]):
@@ -95,7 +95,7 @@ GNAME2 = URIRef(E + "g2")
 #   agg       ReadOnlyGraphAggregate of 2-3 member graphs
 #   named     ds.graph(g1): a named-graph view of a dataset whose other graphs hold OTHER triples on the same store
 KINDS = ["graph", "ds_union", "cg", "agg", "named"]
-VIEW_ROUTES = {"triples", "so", "so_unique", "so_list", "value", "slice", "resource", "eval_direct", "interleave",
+VIEW_ROUTES = {"view", "triples", "so", "so_unique", "so_list", "value", "slice", "resource", "eval_direct", "interleave",
                "sparql_const", "sparql_values", "sparql_tree", "sparql_init", "sparql_n3", "api", "first_false",
                "sparql_same", "sparql_join_before", "sparql_join_after", "sparql_same_init", "sparql_same_values"}
 
@@ -714,7 +714,7 @@ def gen_empty_view(rng):
         o = s
     return {"triples": T, "ghost": ghost, "path": path, "ends": [[s, None], [None, o], [s, o], [None, None]],
             "routes": ["triples", "so", "agg", "ds_default", "ds_named", "sparql_const", "sparql_tree", "sparql_ds_union",
-                       "sparql_ds_default", "sparql_ds_graph", "sparql_n3"] + list(BGP_ROUTES), "style": rng.choice([0, 1, 2]),
+                       "sparql_ds_default", "sparql_ds_graph", "sparql_n3"] + list(BGP_ROUTES) + ["view"], "style": rng.choice([0, 1, 2]),
             "kind": rng.choice(KINDS)}
 
 
@@ -900,7 +900,7 @@ def gen_case(rng, tier, i):
     if rng.random() < 0.15:
         o = s
     ends = [[None, None], [s, None], [None, o], [s, o]]
-    routes = ["triples", "so", "agg", "in_agg", "sparql_n3", "api", "first_false"] + list(BGP_ROUTES)
+    routes = ["triples", "view", "so", "agg", "in_agg", "sparql_n3", "api", "first_false"] + list(BGP_ROUTES)
     routes += rng.sample(["so_unique", "so_list", "value", "slice", "resource", "eval_direct", "interleave"],
                          2 if tier == "quick" else 4)
     if "interleave" in routes:
@@ -997,7 +997,7 @@ def _run_route(route, env, path_ast, s, o):
     S, O = (None if s is None else TERM[s]), (None if o is None else TERM[o])
     P = env["path"]
     back = lambda pairs: [(REV[a], REV[b]) for a, b in pairs]  # noqa: E731
-    if route == "triples":
+    if route in ("triples", "view"):     # `view`: same call, compared with the Lean evaluator over the graph OBJECT (veval)
         return back((a, b) for a, _p, b in env["g"].triples((S, P, O)))
     if route == "so":
         g = env["g"]
@@ -1525,6 +1525,19 @@ def model_lines(case):
         lines += ["bgp same * " + toks, "bgp before " + toks, "bgp after " + toks]
         for s, o in case["ends"]:
             lines.append(f"bgp same {_w(s)} {toks}")
+    if "view" in case["routes"]:
+        kind = case.get("kind", "graph")
+        tl = lambda T: " ".join("%d,%d,%d" % t for t in T)  # noqa: E731
+        if kind in ("graph", "named"):
+            vk, ms = "plain", [vT]
+        else:
+            # the contexts of the store / the members of the aggregate, as _build_env fills them
+            vk, ms = ("agg" if kind == "agg" else "union"), [parts[DEFAULT], parts[NAMED]]
+            if _third(case) or case.get("style"):
+                ms.append(_third(case))
+        tail = "".join(" / " + tl(m) for m in ms)
+        for s, o in case["ends"]:
+            lines.append(f"veval {vk} {_w(s)} {_w(o)} {toks}{tail}")
     return lines
 
 
@@ -1562,7 +1575,12 @@ def select_model_obs(case, out):
     api_base = n3_base + ((n + 3) if "sparql_n3" in case["routes"] else 0)
     ff_base = api_base + ((n + 1) if "api" in case["routes"] else 0)
     bgp_base = ff_base + ((n + 1) if "first_false" in case["routes"] and case["path"][0] == "m" else 0)
+    view_base = bgp_base + ((n + 4) if "sparql_same" in case["routes"] else 0)
     for s, o, route in plan:
+        if route == "view":
+            line = out[view_base + pos[(s, o)]]
+            res.append(_dedup_line(line) if not closure and "|" in line else line)
+            continue
         if route in BGP_ROUTES:
             k = {"sparql_same": 1, "sparql_join_before": 2, "sparql_join_after": 3}.get(route, 4 + pos[(s, o)])
             line = out[bgp_base + k]
